@@ -129,6 +129,10 @@ pub fn run_plan<V: Variant>(plan: &WorldPlan, keys: Keys<V>, with_children: bool
     let mut st = Stats::default();
     let n = V::N;
     let (res, sched) = signers::execute::<V>(plan, keys);
+    if sched.free_running {
+        st.inc("inconclusive.schedule_infeasible");
+        return Verdict { class: None, stats: st };
+    }
     st.steps += sched.steps;
     st.add("sched.switches", sched.switches);
     if sched.switches > 0 {
@@ -211,7 +215,17 @@ pub fn run_plan<V: Variant>(plan: &WorldPlan, keys: Keys<V>, with_children: bool
 }
 
 fn minimise<V: Variant>(plan: &WorldPlan, keys: Keys<V>, class: &str) -> WorldPlan {
-    let same = |p: &WorldPlan| !p.threads.is_empty() && run_plan::<V>(p, keys.clone(), true).class.map(|c| c.0).as_deref() == Some(class);
+    // every trial in its own forked process (see c01::minimise)
+    let same = |p: &WorldPlan| {
+        if p.threads.is_empty() {
+            return false;
+        }
+        let r = crate::isolate::isolated(
+            || run_plan::<V>(p, keys.clone(), true).class.map(|c| c.0).unwrap_or_default().into_bytes(),
+            crate::isolate::run_timeout_s(),
+        );
+        matches!(r, Ok(b) if b == class.as_bytes())
+    };
     let mut cur = plan.clone();
     // without sign calls
     let mut p = cur.clone();
